@@ -29,6 +29,7 @@ MODULES = {
     "C15": "vf.c15",
     "C16": "vf.c16",
     "C17": "vf.c17",
+    "C18": "vf.c18",
     "C19": "vf.c19",
 }
 
